@@ -38,3 +38,17 @@ Example C05_runs :
   let v := [to_nrange (normnd 6 (mkU 1 (-1) 2))] in
   map (view_write Nat.add [6] v (fun i _ => 100 * (i + 1)) (fun p => p)) (seq 0 8) = [0;101;2;203;4;305;6;7].
 Proof. vm_compute. reflexivity. Qed.
+
+(** * Tie to the source by translation (lib/cxx2v.py, re-run on every check): every access site of the parent in
+    the non-const 2-D dynamic view class - all five assignment operators, every right-hand-side kind, including the
+    FASTOR_USE_VECTORISED_EXPR_ASSIGN code - addresses exactly the offsets of [view_write]: a contiguous vector
+    store only in the unit-column-step branch at (f0+i*s0)*N + f1 + j, a scattered store at (f0+i*s0)*N + f1 + j*s1
+    with stride s1, a scalar access at row f0+i*s0, column f1+j*s1 *)
+From Coq Require Import ZArith List.
+From FastorV Require Import Gen.GeneratedViews Proofs.GenViewsEq.
+Theorem C05_source_write_sites :
+  forall f0 s0 f1 s1 N i j : Z,
+    Forall (site_ok f0 s0 f1 s1 N i j) (gen_view2d_write_sites f0 s0 f1 s1 N i j) /\
+    40 <= length (gen_view2d_write_sites f0 s0 f1 s1 N i j).
+Proof. exact gen_view2d_write_sites_ok. Qed.
+Print Assumptions C05_source_write_sites.
